@@ -110,7 +110,8 @@ class Contract(object):
     def __init__(self, file, qualname, params=None, result=None, requires=(), ensures=(),
                  raises=None, modifies=None, loops=None, assumed=False, lemmas=(), ghost=None,
                  self_cls=None, inv=(), pure=False, note='', inline=(), raise_modifies=None,
-                 old_names=(), cases=None, alias=None, hints=(), prune=False, uses=(), ghost_init=None):
+                 old_names=(), cases=None, alias=None, hints=(), prune=False, uses=(), ghost_init=None,
+                 body_slice=None):
         self.file = file
         self.qualname = qualname
         self.params = params or {}
@@ -137,6 +138,7 @@ class Contract(object):
         self.prune = prune
         self.uses = list(uses)        # instances of separately proved lemmas, assumed at entry
         self.ghost_init = dict(ghost_init or {})   # path-global ghost variables (name -> type), fresh at entry
+        self.body_slice = body_slice   # (first, last): source substrings of the first / last top-level statement kept
 
     @staticmethod
     def _nm(kind, i, c):
@@ -573,6 +575,8 @@ class SpecEval(object):
                     return VInt(z3.Length(v.t))
                 if isinstance(v, VTuple):
                     return VInt(len(v.items))
+                if isinstance(v, VRef) and isinstance(e.st.heap[v.ref], HList) and e.st.heap[v.ref].seq is None:
+                    return VInt(0)
                 s, _ = as_seq(v, e.st)
                 return VInt(z3.Length(s))
             if f == 'implies':
